@@ -78,4 +78,5 @@ type Arity struct {
 	Types     []generic.Comp
 	NewFilter func() Filter
 	NewMap    func(w *ecs.World, rel ...generic.Comp) Map
+	TN        func() []generic.Comp // generic.T<N>[...]() for the same type list
 }
